@@ -1264,6 +1264,14 @@ Proof.
   lia.
 Qed.
 
+(** The hypothesis is needed: when staking's two stores disagree (a total below the sum of the
+    recorded powers — never written by x/staking, generated rarely by the harness) the counted power
+    exceeds the total, and the code, like the model, applies the claim. *)
+Example ex_inconsistent_staking :
+  power [(0, 5); (1, 5)] [0; 1] = 10 /\ ~ staking_consistent [(0, 5); (1, 5)] 3 /\
+  length (applied (run ([SetPowers [(0,5);(1,5)] 3; SetBonded [0;1]] ++ map (fun v => Vote v true (mkClaim 1 7 110 0 0 1 10 true)) [0] ++ [Tally]))) = 1%nat.
+Proof. vm_compute. split; [reflexivity|]. split; [|reflexivity]. intros [_ H]. discriminate. Qed.
+
 (** * Genesis export + import as an operation of the histories: what it keeps and what it drops *)
 Lemma regenesis_facts s :
   last_obs (regenesis s) = last_obs s /\ applied (regenesis s) = applied s /\ epoch (regenesis s) = epoch s /\
